@@ -46,6 +46,7 @@ def run(ctx):
         v = c.value
         nan = pyspec.has_nan(v) or ssuite.schema_has_nan(c.schema)
         precs = ssuite.precisions(c.schema)
+        anchors = ssuite.float_anchors(c.schema)
         # (a) if v conforms to S then S % v accepts v
         try:
             s_accepts = ssuite.accepts(c.schema, v)
@@ -76,7 +77,7 @@ def run(ctx):
                 continue
             if origin == "generated" and not a2:
                 continue      # generator soundness is C01's concern
-            if (a2 or origin == "generated") and not pyspec.carries(v, w, precs) and not nan:
+            if (a2 or origin == "generated") and not pyspec.carries(v, w, precs, anchors) and not nan:
                 rp = c.replay_dict()
                 rp.update(w=gen.vsrc(w), observed=f"S % v {'generates' if origin == 'generated' else 'accepts'} w, "
                           "which does not carry v", expected="scalars equal, lists element-wise, dicts on every key given")
@@ -91,6 +92,11 @@ def run(ctx):
             ctx.violation("substitution changed an unspecified dict key: " + d, rp)
         if len(samples) < 4 and isinstance(v, dict) and v:
             samples.append({"schema": c.ssrc, "value": c.vsrc(), "result": repr(c.result).replace("\n", " ")[:160]})
+    for c in ssuite.bad_results(cases)[:5]:
+        rp = c.replay_dict()
+        rp.update(observed="substitute returned a schema with ill-typed props: " + c.unmodelled[:300],
+                  expected="a schema the DSL can build", theorem_or_suite="substitute correspondence")
+        ctx.violation("substitute returned an ill-formed schema object", rp)
     modelled = [c for c in cases if c.term is not None]
     bad = common.eval_cases(ctx.workdir, "c04", [c.term for c in modelled], "subcase", "subcase_ok",
                             extra_requires="Require Import D42.FromNative D42.Substitute D42.CaseSubst.")
